@@ -316,7 +316,8 @@ func newEst(name string) *estSpec {
 		if err != nil {
 			panic(err)
 		}
-		return &estSpec{ve: e, x: vdata, n: len(vdata), gamm: vgamma}
+		// the vectors are concatenated: one weight per scalar observation
+		return &estSpec{ve: e, x: vdata, n: len(vdata), gamm: fv(-0.1, -0.7, -0.2, -1.2, -0.4, -0.3, -0.5, -0.9)}
 	}
 	return nil
 }
